@@ -229,7 +229,7 @@ pub fn generate(g: &mut Gen, thorough: bool) {
         }
     }
     for key in ["roll", "unroll"] {
-        for bad in ["2", "1.5,1", "3,0.5", "2,2", "2,3", "3,-3", "1,2,3", "-2.5,1", "NaN,1", "3,NaN"] {
+        for bad in ["2", "1.5,1", "3,0.5", "2,2", "2,3", "3,-3", "1,2,3", "-2.5,1", "NaN,1", "3,NaN", "3,3", "8,-8", "1,1", "1,-1", "0,0"] {
             shapes.push((false, format!("stack {key}={bad}")));
         }
         for good in ["3,2", "3,-2", "8,7", "2,1", "2,0", "3.0,1.0"] {
@@ -257,7 +257,8 @@ pub fn generate(g: &mut Gen, thorough: bool) {
     }
     // the documented rules, against the implementation (the model decides the rest by agreement)
     for (ok, def) in &shapes {
-        let certain = !(def.contains("roll=2,2") || def.contains("roll=3,-3") || def.contains("roll=2,3") || def.contains("1,1,1,1,1") || def.contains("1,2,3,4,4.5") || def.contains("roll=2,0") || def.contains("-2.5,1"));
+        // (the instruction set is all (m, n) with |n| < m: |n| = m is outside it, and refused)
+        let certain = !(def.contains("roll=2,3") || def.contains("1,1,1,1,1") || def.contains("1,2,3,4,4.5") || def.contains("roll=2,0") || def.contains("-2.5,1"));
         if certain {
             g.push(format!("S_C12R\t{}\t{}", if *ok { 1 } else { 0 }, crate::wire::escape(def)), "oracle-shape", true);
         }
